@@ -38,7 +38,7 @@ class Rocket(_PanelToTabularTransformer):
     def __init__(self, num_kernels=10_000, normalise=True, random_state=None):
         self.num_kernels = num_kernels
         self.normalise = normalise
-        self.random_state = random_state if isinstance(random_state, int) else None
+        self.random_state = random_state
         super(Rocket, self).__init__()
 
     def fit(self, X, y=None):
@@ -57,8 +57,15 @@ class Rocket(_PanelToTabularTransformer):
         """
         X = check_X(X, coerce_to_numpy=True)
         _, self.n_columns, n_timepoints = X.shape
+        # (the seed is passed on only as a plain integer, due to compatibility with Numba;
+        # the constructor argument itself stays as given)
+        seed = (
+            int(self.random_state)
+            if isinstance(self.random_state, (int, np.integer))
+            else None
+        )
         self.kernels = _generate_kernels(
-            n_timepoints, self.num_kernels, self.n_columns, self.random_state
+            n_timepoints, self.num_kernels, self.n_columns, seed
         )
         self._is_fitted = True
         return self
